@@ -221,8 +221,7 @@ class Built:
 
     def _with(self, s):
         inner = self.expr(s["spec"])
-        P = copy.deepcopy(s["P"])
-        self.presets.append((P, copy.deepcopy(P)))
+        P = self._preset(s["P"])
         if s.get("force", True):
             return WithOptions(inner, P)
         return WithDefaultOptions(inner, P)
@@ -239,20 +238,27 @@ class Built:
     def _ds(self, s):
         did = str(s["id"])
         base = self.dataset(did)
-        P, D = s.get("P"), s.get("D")
-        if not P and not D:
+        P, D, chain = s.get("P"), s.get("D"), s.get("chain")
+        if not P and not D and not chain:
             return base
-        key = (did, repr(P), repr(D))
+        key = (did, repr(P), repr(D), repr(chain))
         if key not in self.derived:
             obj = base
             if P:
-                obj = obj.with_options(copy.deepcopy(P))
+                obj = obj.with_options(self._preset(P))
             if D:
-                obj = obj.with_default_options(copy.deepcopy(D))
+                obj = obj.with_default_options(self._preset(D))
+            for which, opts in chain or []:
+                obj = obj.with_options(self._preset(opts)) if which == "P" else obj.with_default_options(self._preset(opts))
             self.derived[key] = obj
             self.dataset_ids[id(obj)] = did
-            self.derived_specs[id(obj)] = (copy.deepcopy(P), copy.deepcopy(D))
+            self.derived_specs[id(obj)] = copy.deepcopy({k: v for k, v in s.items() if k in ("k", "id", "P", "D", "chain")})
         return self.derived[key]
+
+    def _preset(self, P):
+        live = copy.deepcopy(P)
+        self.presets.append((live, copy.deepcopy(P)))
+        return live
 
     def dataset(self, did):
         did = str(did)
@@ -264,9 +270,9 @@ class Built:
         if disp is not None:
             kw["dispatch"] = disp if isinstance(disp, str) else self.expr(disp)
         if d.get("options"):
-            kw["options"] = copy.deepcopy(d["options"])
+            kw["options"] = self._preset(d["options"])
         if d.get("default_options"):
-            kw["default_options"] = copy.deepcopy(d["default_options"])
+            kw["default_options"] = self._preset(d["default_options"])
         if d.get("callback"):
             log, name, pid = self.log, d["callback"], f"cb{did}"
 
